@@ -45,7 +45,7 @@ var profMap = &Profile{
 }
 
 var profDurable = &Profile{
-	Name: "C02-durable", MinOps: 2, MaxOps: 50, NColls: 3, BigKeys: true, BigVals: true, Hostile: true, HugeNames: true, Bulk: 2, Cmps: true,
+	Name: "C02-durable", MinOps: 2, MaxOps: 50, NColls: 3, BigKeys: true, BigVals: true, Hostile: true, HugeNames: true, Bulk: 2, Cmps: true, Framed: 8,
 	Kinds: []wk{{OpSet, 30}, {OpSetR, 4}, {OpDel, 12}, {OpFlush, 14}, {OpEvict, 4}, {OpReopen, 9}, {OpSetColl, 4}, {OpRmColl, 3}, {OpNames, 1}, {OpRevert, 3}, {OpWrite, 2}, {OpGet, 3}},
 }
 
@@ -80,7 +80,7 @@ var profRecycle = &Profile{
 }
 
 var profCopy = &Profile{
-	Name: "C11-copy", MinOps: 3, MaxOps: 40, NColls: 3, MemPct: 15, Cmps: true, Snaps: true, BigVals: true, BigKeys: true, Bulk: 1,
+	Name: "C11-copy", MinOps: 3, MaxOps: 40, NColls: 3, MemPct: 15, Cmps: true, Snaps: true, BigVals: true, BigKeys: true, Bulk: 1, Framed: 10,
 	Kinds: []wk{{OpSet, 40}, {OpDel, 6}, {OpFlush, 8}, {OpEvict, 8}, {OpReopen, 4}, {OpSnap, 4}, {OpSetColl, 4}, {OpCopyTo, 22}},
 }
 
